@@ -96,7 +96,7 @@ fn canon_ip(ip: IpAddr) -> IpAddr {
 }
 
 pub(crate) fn deliver(w: &mut World, d: Dgram, wakers: &mut Vec<Waker>) {
-    if w.stalled.contains(&canon_ip(d.to.ip())) || w.stalled.contains(&canon_ip(d.from.ip())) {
+    if w.stalled.contains(&canon_ip(d.to.ip())) || w.stalled.contains(&canon_ip(d.from.ip())) || w.muted.contains(&canon_ip(d.to.ip())) {
         w.log("udp_blackholed", d.sender_sock, d.data.len() as u64, d.to.to_string());
         w.count("udp_blackholed");
         return;
